@@ -1,0 +1,37 @@
+//go:build verif
+
+package serix
+
+// Contracts for the JSON / map decoder of serix (property C02, clause "a decoder never panics on any input"), read by
+// the verification machinery in /verif. Comment-only file.
+//
+// The decoder is driven by reflection, which the verifier does not model: every reflect call is an unknown call.
+// What is checked here is the one thing that does not depend on it: mapVal is whatever encoding/json produced for the
+// document (string, float64, bool, nil, []any, map[string]any), so a type assertion on it without the comma-ok form
+// panics for well-formed JSON of the wrong shape. Safety-only contracts: no functional postcondition.
+
+/*@
+func API.mapDecodeBasedOnType
+  requires api != nil && opts != nil && valueType != nil
+  modifies everything
+
+func API.mapDecodeFloat
+  requires api != nil && valueType != nil
+  modifies everything
+
+func API.mapDecodeInterface
+  requires api != nil && opts != nil && valueType != nil
+  modifies everything
+
+func API.mapDecodeStruct
+  requires api != nil && opts != nil && valueType != nil
+  modifies everything
+
+func API.mapDecodeSlice
+  requires api != nil && opts != nil && valueType != nil
+  modifies everything
+
+func API.mapDecodeMap
+  requires api != nil && opts != nil && valueType != nil
+  modifies everything
+@*/
